@@ -316,6 +316,11 @@ class Report:
         self.coverage["theorems"] = pr["theorems"]
         self.coverage["axioms_reported"] = pr["axioms"]
         self.build_ok = okb and pr["ok"]
+        if not ok:
+            # the generated part of the model is stale: the theorems were not re-checked against what the code says now
+            self.coverage["discharged"] = 0
+            self.broken_proof = "translator failed, generated model files are stale: " + msg[-600:]
+            return False
         if not pr["ok"]:
             m = re.search(r'File "([^"]+)", line (\d+)[^\n]*\n(?:.*\n)*?Error:?\s*((?:.*\n){0,12})', pr["log"])
             where = pr["log"][-1500:]
